@@ -208,6 +208,11 @@ def build_harness(variant="default"):
         ct = open(os.path.join(alt, "Cargo.toml")).read().replace('"/repo', '"' + os.path.abspath(REPO))
         open(os.path.join(alt, "Cargo.toml"), "w").write(ct)
         hd = alt
+        # start from the dependency artefacts of the main build (a cold cargo build takes minutes)
+        tgt = os.path.join(BUILD, "cargo-" + variant + _repo_tag())
+        src = os.path.join(BUILD, "cargo-" + variant)
+        if not os.path.exists(tgt) and os.path.exists(src):
+            sh(["cp", "-r", src, tgt], timeout=600)
     lock_src = os.path.join(REPO, "Cargo.lock")
     lock_dst = os.path.join(hd, "Cargo.lock")
     if not os.path.exists(lock_dst):
